@@ -78,7 +78,7 @@ func (s *State) assume(ts ...*Term) {
 				s.openFacts = append(s.openFacts, c)
 				continue
 			}
-			if c.isFalse() {
+			if c.isFalse() || s.pcSet[Not(c).id] {
 				s.dead = true
 			}
 			s.pcSet[c.id] = true
